@@ -16,7 +16,7 @@
  *   tf <f|d|e> <lo:hi|-> <hd> text...           mpt_cfloat / mpt_cdouble / mpt_cldouble
  * src: b y n q i u x t (c for V/C), f d e with values as bit patterns (x...);
  * text: hex bytes ("-" empty, "NULL" null pointer), for float targets
- * hex/end/overflow/bits = what libc answered when the case was generated (re-checked here).
+ * hex/end/erange/bits = what libc answered (end pointer, errno == ERANGE, value) when the case was generated (re-checked here).
  */
 #include "common.h"
 #include <errno.h>
@@ -249,11 +249,11 @@ static void libc_oracle(int fmt, const char *s, long *oend, int *oovf, char *bit
 	char *end = (char *) s;
 	*oovf = 0;
 	errno = 0;
-	if (fmt == 'f') { float v = strtof(s, &end); uint32_t b; *oovf = (errno == ERANGE && isinf(v)); memcpy(&b, &v, 4);
+	if (fmt == 'f') { float v = strtof(s, &end); uint32_t b; *oovf = (errno == ERANGE); memcpy(&b, &v, 4);
 		if (isnan(v)) strcpy(bits, "nan"); else sprintf(bits, "%" PRIx32, b); }
-	else if (fmt == 'd') { double v = strtod(s, &end); uint64_t b; *oovf = (errno == ERANGE && isinf(v)); memcpy(&b, &v, 8);
+	else if (fmt == 'd') { double v = strtod(s, &end); uint64_t b; *oovf = (errno == ERANGE); memcpy(&b, &v, 8);
 		if (isnan(v)) strcpy(bits, "nan"); else sprintf(bits, "%" PRIx64, b); }
-	else { long double v = strtold(s, &end); uint64_t lo; uint16_t hi; *oovf = (errno == ERANGE && isinf(v));
+	else { long double v = strtold(s, &end); uint64_t lo; uint16_t hi; *oovf = (errno == ERANGE);
 		memcpy(&lo, &v, 8); memcpy(&hi, (char *) &v + 8, 2);
 		if (isnan(v)) strcpy(bits, "nan"); else if (hi) sprintf(bits, "%x%016" PRIx64, hi, lo); else sprintf(bits, "%" PRIx64, lo); }
 	*oend = end - s;
